@@ -63,6 +63,12 @@ Proof.
   unfold Rabs in Hb. destruct (Rcase_abs _) in Hb; nra.
 Qed.
 
+Lemma vN2_bounds : (1 - q) * (1 - q) <= N2 <= (1 + q) * (1 + q).
+Proof.
+  rewrite vN2_eq. generalize vdot_bound. intro Hb.
+  unfold Rabs in Hb. destruct (Rcase_abs _) in Hb; split; nra.
+Qed.
+
 Lemma v_normalised : q < 1 -> vx = wx / sqrt N2 /\ vy = wy / sqrt N2 /\ vz = wz / sqrt N2.
 Proof.
   intro Hq. assert (HN2 := vN2_pos Hq).
